@@ -79,9 +79,61 @@ def scan_trace(path):
     st["events"] = n
     return st, sigs, sample
 
+REGN = {"quick": 400, "thorough": 20000}
+
+def scan_regn(path):
+    st = collections.Counter()
+    sigs = set()
+    n = 0
+    for line in open(path):
+        e = json.loads(line)
+        n += 1
+        st["op:" + e["op"]] += 1
+        if e["op"] != "regn":
+            continue
+        st["regn-cases"] += 1
+        st["regn:n=%d" % e["n"]] += 1
+        st["regn:enc=%s" % e["enc"]] += 1
+        if e["n"] % 8 == 0:
+            st["regn-registry-size-multiple-of-8"] += 1
+        if e.get("res", {}).get("pad") == "rejected":
+            st["regn-padding-bit-inputs"] += 1
+        sigs.add(hash(("regn", e["n"], e["enc"], tuple(sorted(set(e["masks"]))), bool(e["remcs"]), bool(e["removes"]))))
+    st["events"] = n
+    return st, sigs, None
+
+def regn_crash(out, rc):
+    lines = [l for l in open(out, errors="replace") if l.endswith("\n")] if os.path.exists(out) else []
+    cur = {}
+    try:
+        cur = json.load(open(out + ".cur"))
+    except Exception:
+        pass
+    with open(out, "w") as f:
+        for l in lines:
+            f.write(l)
+        ev = dict(cur)
+        ev.update({"op": "crashed", "was": "regn", "rc": rc, "n": cur.get("n", 0)})
+        f.write(json.dumps(ev) + "\n")
+
+def is_regn_script(path):
+    try:
+        return json.loads(open(path).readline()).get("op") == "regn"
+    except Exception:
+        return False
+
 def extract_replay(trace, line, out):
     """Write the op script of the history containing `line` (1-based), up to that line."""
     ops = []
+    if os.path.basename(trace).startswith("regn") or is_regn_script(trace):
+        for i, l in enumerate(open(trace), 1):
+            if i == line:
+                e = json.loads(l)
+                e = {k: v for k, v in e.items() if k in ("op", "n", "masks", "remcs", "removes", "enc")}
+                e["op"] = "regn"
+                os.makedirs(os.path.dirname(out), exist_ok=True)
+                open(out, "w").write(json.dumps(e) + "\n")
+        return out
     for i, l in enumerate(open(trace), 1):
         e = json.loads(l)
         if e["op"] == "crashed":
@@ -164,14 +216,19 @@ def run_world(tier, seed, scripts_only=None):
         log("[world] using cached result %s" % key)
         return r
     t0 = time.time()
-    build_harness(["worlddrv"])
+    build_harness(["worlddrv", "regndrv"])
     d = os.path.join(WORK, "cache", key, name + ".d")
     shutil.rmtree(d, ignore_errors=True)
     os.makedirs(d)
     jobs = []
-    if scripts_only:
+    if scripts_only and is_regn_script(scripts_only):
+        jobs.append(("regn", ("script", scripts_only), os.path.join(d, "regn-replay.ndjson")))
+    elif scripts_only:
         jobs.append(("script", scripts_only, os.path.join(d, "replay.ndjson")))
     else:
+        # registries of 1, 7, 8, 15, 16, 17, 24 components (RegN.tla)
+        for i in range(2):
+            jobs.append(("regn", (seed * 1000 + i, REGN[tier] // 2), os.path.join(d, "regn%02d.ndjson" % i)))
         for prof, (shards, hist, nops) in TIERS[tier].items():
             for i in range(shards):
                 jobs.append(("random", (seed * 1000 + i, hist, nops, prof), os.path.join(d, "%s%02d.ndjson" % (prof, i))))
@@ -186,6 +243,16 @@ def run_world(tier, seed, scripts_only=None):
 
     def one(job):
         kind, arg, out = job
+        if kind == "regn":
+            p = sh([bin_path("regndrv"), str(arg[0]), str(arg[1]), out], timeout=1200, check=False)
+            if p.returncode == 2:
+                raise ToolError("regndrv harness error: " + p.stdout[-2000:])
+            if p.returncode != 0:
+                regn_crash(out, p.returncode)
+            res = tlc_trace("TraceRegN.tla", "TraceRegN.cfg", out, out + ".meta", timeout=3000)
+            st, sigs, sample = scan_regn(out)
+            return {"trace": out, "fails": [(a, b, c, "regn n=%s" % d) for (a, b, c, d) in res["fails"]], "stats": st, "sigs": sigs,
+                    "sample": sample, "kind": kind, "src": None}
         if kind == "random":
             p = sh([bin_path("worlddrv"), "random", str(arg[0]), str(arg[1]), str(arg[2]), out, arg[3]], timeout=1200, check=False)
         elif kind == "enum":
